@@ -66,6 +66,21 @@ def pick_int(x, name, lo, hi):
     return int(x.s.v_int(name, lo, hi))
 
 
+def maybe_busy(w, x, P):
+    """P['busy']: another client holds the write lock for the first k attempts (k symbolic): Deque / Index operations wait
+    (they take the lock with retry) and then behave exactly as without the lock"""
+    if not P.get('busy'):
+        return
+    kk = x.s.v_int('busy_k', 1, 2)
+    cnt = [0]
+
+    def hook(con):
+        cnt[0] += 1
+        flag('lock_busy')
+        return bool(kk >= cnt[0])
+    w.set_busy_hook(x.c, hook)
+
+
 @directive_aware
 def ob_deque(w, P):
     x, contents = deque_scn(w, P)
@@ -80,6 +95,7 @@ def ob_deque(w, P):
     od = collections.deque(contents, maxlen)
     v = x.s.v_int('val', -2 ** 40, 2 ** 40)
     v2 = x.s.v_int('val2', -2 ** 40, 2 ** 40)
+    maybe_busy(w, x, P)
     x.begin()
     if op in ('append', 'appendleft', 'count'):
         ok, r, o = call_both(lambda: getattr(dq, op)(v), lambda: getattr(od, op)(v))
@@ -202,6 +218,7 @@ def ob_index(w, P):
     od = collections.OrderedDict(contents)
     k = pick_int(x, 'key', 0, N + 1)
     v = x.s.v_int('val', -2 ** 40, 2 ** 40)
+    maybe_busy(w, x, P)
     x.begin()
     if op == 'getitem':
         ok, r, o = call_both(lambda: ix[k], lambda: od[k])
@@ -308,6 +325,17 @@ def jobs(tier):
             if N >= 3 and op == 'update':
                 continue  # two symbolic keys on top of three symbolic rows: 6800 paths, covered at N=2
             out.append(dict(id='index.%s.N=%d' % (op, N), func='ob_index', params=dict(N=N, op=op, policy='none'), tags=['C12', 'C08'], functions=INDEX_F, weight=N * 3))
+        if N == 2:
+            # every mutator under a write lock that another client holds for a while: it waits and then does its work
+            for op in ('append', 'appendleft', 'extend', 'extendleft', 'pop', 'popleft', 'setitem', 'delitem', 'rotate', 'reverse', 'remove', 'clear', 'maxlen_set', 'peek', 'getitem'):
+                out.append(dict(id='deque.%s.busy' % op, func='ob_deque', params=dict(N=2, op=op, policy='none', busy=1), tags=['C11', 'C14'], functions=DEQUE_F, weight=8,
+                                must_reach=['lock_busy'] if op not in ('peek', 'getitem') else []))
+            for op in ('setitem', 'delitem', 'pop', 'popitem_last', 'popitem_first', 'setdefault', 'update', 'clear', 'peekitem_last', 'getitem'):
+                out.append(dict(id='index.%s.busy' % op, func='ob_index', params=dict(N=2, op=op, policy='none', busy=1), tags=['C12', 'C14'], functions=INDEX_F, weight=8,
+                                must_reach=['lock_busy'] if op not in ('getitem', 'peekitem_last') else []))
+        if tier == 'quick':
+            for op in ('iter', 'reversed', 'getitem', 'count', 'eq'):  # three items: Deque iteration crosses a full page and goes on
+                out.append(dict(id='deque.%s.N=3' % op, func='ob_deque', params=dict(N=3, op=op, policy='none'), tags=['C11', 'C08'], functions=DEQUE_F, weight=9))
         for op in (('eq_dict_otherkey', 'ne_dict_otherkey', 'eq_dict', 'eq_ordered', 'getitem', 'get', 'pop', 'setdefault', 'values', 'items') if N == 2 else ('getitem', 'pop', 'setdefault')):
             out.append(dict(id='index.%s.nones.N=%d' % (op, N), func='ob_index', params=dict(N=N, op=op, policy='none', nones=True), tags=['C12', 'C01'], functions=INDEX_F, weight=N * 4))
     return out
